@@ -18,6 +18,14 @@ func genResult(t *rapid.T, kinds []uint8, st *Step) {
 	if rapid.IntRange(0, 3).Draw(t, "iserr") == 0 {
 		st.ErrText = rapid.SampledFrom([]string{"boom", "permission denied", "x", "file not found"}).Draw(t, "errtext")
 		st.Plain = rapid.Bool().Draw(t, "plain")
+		if rapid.IntRange(0, 2).Draw(t, "special") == 0 {
+			special := []string{"wrap9p"}
+			if len(kinds) == len(resultKinds) {
+				// C06 only: these texts carry no marker, and C07 needs every reply attributable
+				special = []string{"canceled", "deadline", "wrap9p"}
+			}
+			st.ErrKind = rapid.SampledFrom(special).Draw(t, "errkind")
+		}
 		return
 	}
 	m := gen.MsgOfKind(rapid.SampledFrom(kinds).Draw(t, "reskind"), gen.Sizes{}).Draw(t, "res")
